@@ -33,108 +33,28 @@ theorem settle_of_refused (pre : NodeLedger.State) (post : Node.State) (r : Res)
   unfold State.settle
   simp only [e1, h2, h3, h4, h5, Bool.false_eq_true, if_false]
 
-/-! ### stored headers stay stored -/
-
-theorem lookup_filter_ne (hs : List Header) (k x : Nat) (hne : k ≠ x) :
-    lookupHeader (hs.filter (fun h => h.id != x)) k = lookupHeader hs k := by
-  unfold lookupHeader
-  induction hs with
-  | nil => rfl
-  | cons h t ih =>
-    by_cases hx : h.id = x
-    · have hk : (x == k) = false := beq_false_of_ne (fun e => hne e.symm)
-      simp only [List.filter_cons, hx, bne_self_eq_false, Bool.false_eq_true, if_false, List.find?_cons, hk]
-      exact ih
-    · have hx' : (h.id != x) = true := by simpa using hx
-      simp only [List.filter_cons, hx', if_true, List.find?_cons]
-      cases h.id == k
-      · exact ih
-      · rfl
-
-/-- every stored id stays stored -/
-def StoredMono (s s' : Node.State) : Prop := ∀ id, (s.header id).isSome = true → (s'.header id).isSome = true
-
-theorem StoredMono.refl (s : Node.State) : StoredMono s s := fun _ h => h
-theorem StoredMono.trans {a b c : Node.State} (h1 : StoredMono a b) (h2 : StoredMono b c) : StoredMono a c :=
-  fun id h => h2 id (h1 id h)
-theorem StoredMono.of_eq {s s' : Node.State} (h : s'.headers = s.headers) : StoredMono s s' := by
-  intro id hi; simp only [State.header, h]; exact hi
-
-theorem header_cons_filter (hs : List Header) (hd : Header) (k : Nat) :
-    lookupHeader (hd :: hs.filter (fun h => h.id != hd.id)) k =
-      if hd.id = k then some hd else lookupHeader hs k := by
-  by_cases e : hd.id = k
-  · simp [lookupHeader, e]
-  · have : (hd.id == k) = false := beq_false_of_ne e
-    simp only [e, if_false]
-    rw [← lookup_filter_ne hs k hd.id (fun x => e x.symm)]
-    simp [lookupHeader, this]
-
-theorem saveBlock_storedMono (s : Node.State) (b : Header) : StoredMono s (s.saveBlock b).1 := by
-  cases hok : (s.saveBlock b).2 with
-  | false => exact StoredMono.of_eq (saveBlock_headers_of_fail s b hok)
-  | true =>
-    intro id hi
-    have hh := (saveBlock_headers_of_ok s b hok).1
-    have e := header_cons_filter s.headers (savedHeader s b) id
-    simp only [State.header, hh]
-    rw [show (fun (h : Header) => h.id != b.id) = (fun h => h.id != (savedHeader s b).id) from rfl, e]
-    split
-    · rfl
-    · exact hi
-
-theorem saveBlock_stores (s : Node.State) (b : Header) (hok : (s.saveBlock b).2 = true) :
-    (s.saveBlock b).1.header b.id = some (savedHeader s b) := by
-  have hh := (saveBlock_headers_of_ok s b hok).1
-  simp only [State.header, hh]
-  rw [show (fun (h : Header) => h.id != b.id) = (fun h => h.id != (savedHeader s b).id) from rfl,
-    header_cons_filter]
-  simp [savedHeader]
-
-theorem foldl_storedMono {α : Type} (f : Node.State → α → Node.State) (hf : ∀ st a, StoredMono st (f st a)) :
-    ∀ (l : List α) (s : Node.State), StoredMono s (l.foldl f s)
-  | [], s => StoredMono.refl s
-  | a :: l, s => by
-    rw [List.foldl_cons]
-    exact StoredMono.trans (hf s a) (foldl_storedMono f hf l (f s a))
-
-theorem saveSubBlock_storedMono : ∀ (fuel : Nat) (s : Node.State) (id : Nat), StoredMono s (State.saveSubBlock fuel s id)
-  | 0, s, _ => StoredMono.refl s
-  | fuel + 1, s, id => by
-    unfold State.saveSubBlock
-    split
-    · exact StoredMono.refl s
-    · apply foldl_storedMono
-      intro st o
-      dsimp only
-      split
-      · exact StoredMono.refl st
-      · rename_i ob _
-        split
-        · exact StoredMono.trans (saveBlock_storedMono st ob) (StoredMono.of_eq (orphanDelete_headers _ _))
-        · exact StoredMono.trans (saveBlock_storedMono st ob) (saveSubBlock_storedMono fuel _ o)
-
 /-- completeness, storing: a block that passes `validBlock` with its parent stored is stored by
     `processBlock` unless Casper refuses it (`saveBlock` fails) -/
 theorem valid_block_stored (s : NodeLedger.State) (b : Header)
     (hp : (s.node.header b.parent).isSome = true) (hv : s.validBlock b = true)
     (hk : alreadyProcessed s.node b = false) (hok : (s.node.saveBlock b).2 = true) :
     ((s.processBlock b).1.node.header b.id).isSome = true := by
-  rw [processBlock_eq]
-  have hc : (!(alreadyProcessed s.node b) && (s.node.header b.parent).isSome && !s.validBlock b) = false := by
-    simp [hv]
-  simp only [hc, Bool.false_eq_true, if_false]
-  obtain ⟨_, hh, _⟩ := settle_frame s (s.node.processBlock b).1 (s.node.processBlock b).2
+  have hvb : s.saveBlockVn s.node b = s.node.saveBlock b := by
+    rcases saveBlockVn_cases s s.node b with ⟨hf, _⟩ | ⟨_, e⟩
+    · rw [validIn_self, hv] at hf; cases hf
+    · exact e
+  rw [processBlock_eq_settle]
+  obtain ⟨_, hh, _⟩ := settle_frame s (s.chainProcessBlock b).1 (s.chainProcessBlock b).2
   simp only [State.header, hh]
-  rcases node_processBlock_cases s.node b with ⟨h1, _⟩ | ⟨_, hn, _⟩ | ⟨_, _, hf, _⟩ | ⟨_, _, _, e⟩
+  rcases chainProcessBlock_cases s b with ⟨h1, _⟩ | ⟨_, hn, _⟩ | ⟨_, _, hf, _⟩ | ⟨_, _, _, e⟩
   · rw [hk] at h1; cases h1
   · rw [Option.isNone_iff_eq_none] at hn; rw [hn] at hp; cases hp
-  · rw [hok] at hf; cases hf
+  · rw [hvb, hok] at hf; cases hf
   · rw [e]
     dsimp only
-    rw [tryReorganize_headers]
-    have := saveSubBlock_storedMono (s.node.saveBlock b).1.fuel (s.node.saveBlock b).1 b.id b.id
-      (by rw [saveBlock_stores s.node b hok]; rfl)
+    rw [tryReorganize_headers, hvb]
+    have := (saveSubBlockVn_prov s (fun _ => True) (s.node.saveBlock b).1.fuel (s.node.saveBlock b).1 b.id
+      (fun _ _ => trivial)).1.1 b.id (by rw [saveBlock_stores s.node b hok]; rfl)
     exact this
 
 /-! ### a valid extension of the best block -/
@@ -224,13 +144,17 @@ theorem valid_extension_accepted (s : NodeLedger.State) (b : Header) (v' : View)
       rw [hpar]; exact hob1
   have htry := tryReorganize_of_calc s1 b.id (savedHeader s.node b) ob [savedHeader s.node b] []
     (by rw [hb1]; exact fun e => hne e.symm) hnb (by rw [hb1]; exact hob1) hcalc
-  have hnp : s.node.processBlock b =
+  have hvb : s.saveBlockVn s.node b = s.node.saveBlock b := by
+    rcases saveBlockVn_cases s s.node b with ⟨hf, _⟩ | ⟨_, e⟩
+    · rw [validIn_self, hv] at hf; cases hf
+    · exact e
+  have hnp : s.chainProcessBlock b =
       (({ s1 with index := alistSet s1.index b.height b.id, best := b.id, statusFin := s1.tree.ckpt.hash } : Node.State), .ok) := by
-    rcases node_processBlock_cases s.node b with ⟨h1, _⟩ | ⟨_, hn, _⟩ | ⟨_, _, hf, _⟩ | ⟨_, _, _, e⟩
+    rcases chainProcessBlock_cases s b with ⟨h1, _⟩ | ⟨_, hn, _⟩ | ⟨_, _, hf, _⟩ | ⟨_, _, _, e⟩
     · rw [hk] at h1; cases h1
     · rw [Option.isNone_iff_eq_none] at hn; rw [hn] at hp; cases hp
-    · rw [hok] at hf; cases hf
-    · rw [e, saveSubBlock_no_waiting _ _ _ hso.2, hfc, htry]
+    · rw [hvb, hok] at hf; cases hf
+    · rw [e, hvb, saveSubBlockVn_no_waiting _ _ _ _ hso.2, hfc, htry]
       rfl
   have hledger : s.ledgerReorg [savedHeader s.node b] [] =
       some (saveView s.utxo v', saveContracts s.contracts (contractAttach (s.txsOf b.id) []) []) := by
@@ -239,10 +163,8 @@ theorem valid_extension_accepted (s : NodeLedger.State) (b : Header) (v' : View)
       | none => none
       | some v' => some (saveView s.utxo v', saveContracts s.contracts (contractAttach (s.txsOf b.id) []) [])) = _
     rw [htx]
-  rw [processBlock_eq]
-  have hc : (!(alreadyProcessed s.node b) && (s.node.header b.parent).isSome && !s.validBlock b) = false := by
-    simp [hv]
-  simp only [hc, Bool.false_eq_true, if_false, hnp]
+  rw [processBlock_eq_settle, hnp]
+  dsimp only
   rw [settle_of_accepted s _ .ok (savedHeader s.node b) ob [savedHeader s.node b] [] _ _
     (by exact hne) (by exact hnb) (by exact hob1)
     (Eq.trans (calcReorg_congr s1 { s1 with index := alistSet s1.index b.height b.id, best := b.id, statusFin := s1.tree.ckpt.hash } rfl _ _ _ _ _) hcalc) hledger]
@@ -300,13 +222,17 @@ theorem context_invalid_extension_refused (s : NodeLedger.State) (b : Header)
       rw [hpar]; exact hob1
   have htry := tryReorganize_of_calc s1 b.id (savedHeader s.node b) ob [savedHeader s.node b] []
     (by rw [hb1]; exact fun e => hne e.symm) hnb (by rw [hb1]; exact hob1) hcalc
-  have hnp : s.node.processBlock b =
+  have hvb : s.saveBlockVn s.node b = s.node.saveBlock b := by
+    rcases saveBlockVn_cases s s.node b with ⟨hf, _⟩ | ⟨_, e⟩
+    · rw [validIn_self, hv] at hf; cases hf
+    · exact e
+  have hnp : s.chainProcessBlock b =
       (({ s1 with index := alistSet s1.index b.height b.id, best := b.id, statusFin := s1.tree.ckpt.hash } : Node.State), .ok) := by
-    rcases node_processBlock_cases s.node b with ⟨h1, _⟩ | ⟨_, hn, _⟩ | ⟨_, _, hf, _⟩ | ⟨_, _, _, e⟩
+    rcases chainProcessBlock_cases s b with ⟨h1, _⟩ | ⟨_, hn, _⟩ | ⟨_, _, hf, _⟩ | ⟨_, _, _, e⟩
     · rw [hk] at h1; cases h1
     · rw [Option.isNone_iff_eq_none] at hn; rw [hn] at hp; cases hp
-    · rw [hok] at hf; cases hf
-    · rw [e, saveSubBlock_no_waiting _ _ _ hso.2, hfc, htry]
+    · rw [hvb, hok] at hf; cases hf
+    · rw [e, hvb, saveSubBlockVn_no_waiting _ _ _ _ hso.2, hfc, htry]
       rfl
   have hledger : s.ledgerReorg [savedHeader s.node b] [] = none := by
     rw [ledgerReorg_single]
@@ -314,10 +240,8 @@ theorem context_invalid_extension_refused (s : NodeLedger.State) (b : Header)
       | none => none
       | some v' => some (saveView s.utxo v', saveContracts s.contracts (contractAttach (s.txsOf b.id) []) [])) = _
     rw [htx]
-  rw [processBlock_eq]
-  have hc : (!(alreadyProcessed s.node b) && (s.node.header b.parent).isSome && !s.validBlock b) = false := by
-    simp [hv]
-  simp only [hc, Bool.false_eq_true, if_false, hnp]
+  rw [processBlock_eq_settle, hnp]
+  dsimp only
   rw [settle_of_refused s _ .ok (savedHeader s.node b) ob [savedHeader s.node b] []
     (by exact hne) (by exact hnb) (by exact hob1)
     (Eq.trans (calcReorg_congr s1 { s1 with index := alistSet s1.index b.height b.id, best := b.id, statusFin := s1.tree.ckpt.hash } rfl _ _ _ _ _) hcalc) hledger]
